@@ -19,7 +19,7 @@ use vx_bounded::cli;
 
 const SCHEMA: &str = "scalar Int\nscalar String\nscalar ID\nscalar Boolean\nscalar Float\ntype Query { user(id: ID): User hello: String }\ntype Mutation { rename(id: ID, to: String): User }\ntype Subscription { ticks: Int }\ntype User { id: ID name: String }\n";
 
-const DOCS: [(&str, &str); 8] = [
+const DOCS: [(&str, &str); 11] = [
     ("one named query", "query GetUser($id: ID) { user(id: $id) { id } }"),
     ("lower-case names", "query getUser { hello }\nfragment userParts on User { id }"),
     ("anonymous query", "query { hello }"),
@@ -28,6 +28,9 @@ const DOCS: [(&str, &str); 8] = [
     ("query and fragments", "query WithFrag { user { ...F1 ...f2 } }\nfragment F1 on User { id }\nfragment f2 on User { name }"),
     ("fragments only", "fragment OnlyA on User { id }\nfragment OnlyB on User { name ...OnlyA }"),
     ("anonymous mutation and a fragment", "mutation { rename(id: 1, to: \"y\") { ...Z } }\nfragment Z on User { id }"),
+    ("an operation and a fragment of the same name, operation first", "query User { user { ...User } }\nfragment User on User { id }"),
+    ("an operation and a fragment of the same name, fragment first", "fragment User on User { id }\nquery User { user { ...User } }"),
+    ("a query and a mutation of one name, and a fragment named like both", "fragment Same on User { id }\nquery Same { hello }\nmutation Same { rename(id: 1, to: \"z\") { ...Same } }"),
 ];
 
 struct Cfg {
